@@ -18,10 +18,10 @@ package main
 //
 // Oracle (the property): Q2 is issued after the write was acknowledged and no
 // other write follows, so it must return the last status recorded.  Q1
-// overlaps the write; the property does not pin it beyond "a status that was
-// recorded": old or new status of that run are both accepted, a status that
-// was never recorded is a violation, any other outcome (e.g. an empty list
-// while the file is being compacted) is only counted.
+// overlaps the write: the old and the new status of that run are both
+// accepted (the query takes effect before or after the write); a status that
+// was never recorded, or an answer that is neither (e.g. an empty list while
+// the file is being replaced by its compacted copy), is a violation.
 
 import (
 	"context"
@@ -562,9 +562,11 @@ func (c *checker) ilMember(g ilGroup, base []ilCall, lo, k int) {
 		ok = false
 		res.Violate("C06/interleaved/unrecorded-status-in-overlapping-query/"+pos, detail("Q1 returned a status that was never recorded"), rp)
 	default:
-		// neither old nor new (e.g. nothing while the file is being replaced by its compacted copy):
-		// the property does not pin a query that overlaps a write; counted, not judged
-		res.Count("interleaved_q1_neither:"+pos, 1)
+		// neither what was recorded before W nor after it (e.g. nothing at all while the file is being
+		// replaced by its compacted copy): the answer corresponds to no position in the sequence of
+		// recorded operations
+		ok = false
+		res.Violate("C06/interleaved/overlapping-query-neither-old-nor-new/"+pos, detail("Q1 returned neither the status recorded before W nor the one after it"), rp)
 	}
 	if ok {
 		res.Validated++
